@@ -1127,15 +1127,16 @@ fn blame_hang(rep: &RunReport, live: Live, out: &mut Vec<Violation>, verdict: &m
             // thread, whatever the pool is doing.  If nothing on the object has ever started, no other future of it has ever
             // been polled and the queue is still claimable, then nobody has run the queue since the operation was
             // scheduled: it was claimable at every poll of this future, and the poll left it alone.
-            if matches!(hr.kind, Kind::FutureDesync | Kind::After | Kind::FutureSync) && r.start.is_none() && hr.resolved_at.is_none() && !hr.sync_wait {
+            if matches!(hr.kind, Kind::FutureDesync | Kind::FutureSync) && r.start.is_none() && hr.resolved_at.is_none() && !hr.sync_wait {
                 if let Some(o) = r.obj {
                     let peek = facts.queue_peeks.iter().find(|p| p.0 == o).and_then(|p| p.1);
                     let claimable = matches!(peek, Some((1, _, _))) || matches!(peek, Some((0, n, _)) if n > 0);
                     let polled_after_scheduling = hr.first_poll.map_or(false, |p| r.ret.map_or(false, |x| p > x));
                     let nothing_ever_ran = !ops.iter().any(|x| x.obj == Some(o) && x.start.is_some());
                     let nobody_else_polled = !world.hrec.iter().enumerate().any(|(h2, x)| h2 != h && x.polls > 0 && x.op.map_or(false, |id| ops[id as usize].obj == Some(o)));
-                    // (jobs that hold the queue without being operations of their own: the slot of another future_sync, a suspension, a pipe's poll)
-                    let pipes_on_o = world.streams.iter().any(|st| st.obj == Some(o)) || ops.iter().any(|x| x.obj == Some(o) && x.id != opid && matches!(x.kind, Kind::FutureSync | Kind::Suspend | Kind::Pipe | Kind::PipeIn) && x.inv.is_some());
+                    // (jobs that hold the queue without an operation having started: the slot of another future_sync, an `after` still waiting for its
+                    // future, a suspension, a pipe's poll)
+                    let pipes_on_o = world.streams.iter().any(|st| st.obj == Some(o)) || ops.iter().any(|x| x.obj == Some(o) && x.id != opid && matches!(x.kind, Kind::FutureSync | Kind::After | Kind::Suspend | Kind::Pipe | Kind::PipeIn) && x.inv.is_some());
                     if claimable && polled_after_scheduling && nothing_ever_ran && nobody_else_polled && !pipes_on_o && !world.objs[o].panic_injected && matches!(task_state(Some(t)), Some(TState::Blocked(Wait::Park))) {
                         let prop = if hr.kind == Kind::FutureSync { "C08" } else { "C07" };
                         v(out, prop, "poll_left_claimable_queue_alone", &[opid], hr.first_poll.unwrap_or(0), format!("task {} awaits handle {} of {} {} on object {}: nothing has ever run on that object and its queue (state/len/waiters {:?}) has been waiting to be run since the operation was scheduled, yet polling the future did not run it on the polling thread: {}", t, h, r.tag, opid, o, peek, where_));
@@ -1181,7 +1182,7 @@ fn blame_hang(rep: &RunReport, live: Live, out: &mut Vec<Violation>, verdict: &m
         let claimable = matches!(peek, Some((1, _, _))) || matches!(peek, Some((0, n, _)) if n > 0);
         let nothing_ever_ran = !ops.iter().any(|x| x.obj == Some(o) && x.start.is_some());
         let nobody_else_polled = !world.hrec.iter().any(|x| x.polls > 0 && x.op.map_or(false, |id| ops[id as usize].obj == Some(o)));
-        let holders = world.streams.iter().any(|st| st.obj == Some(o)) || ops.iter().any(|x| x.obj == Some(o) && x.id != r.id && matches!(x.kind, Kind::FutureSync | Kind::Suspend | Kind::Pipe | Kind::PipeIn) && x.inv.is_some());
+        let holders = world.streams.iter().any(|st| st.obj == Some(o)) || ops.iter().any(|x| x.obj == Some(o) && x.id != r.id && matches!(x.kind, Kind::FutureSync | Kind::After | Kind::Suspend | Kind::Pipe | Kind::PipeIn) && x.inv.is_some());
         let other_nested = ops.iter().any(|x| x.obj == Some(o) && x.id != r.id && x.nested_in.is_some() && matches!(x.kind, Kind::FutureDesync | Kind::FutureSync) && x.inv.is_some());
         if claimable && nothing_ever_ran && nobody_else_polled && !holders && !other_nested {
             let prop = if r.kind == Kind::FutureSync { "C08" } else { "C07" };
